@@ -303,12 +303,41 @@ class CatalogReplayer:
     INT_CLOSED = {"add", "sub", "mul", "neg", "clone", "matmul", "addmm", "sum", "max", "min", "squeeze", "unsqueeze", "reshape", "flatten",
                   "movedim", "transpose", "unfold", "concat", "stack", "unbind", "getitem"}
 
+    INT_MAY = {"div", "divc", "rdivc", "powi", "mean"}
+
+    def int_may_pass(self, case):
+        """operations that leave the integers (quotients, negative powers, means) on int64 operands: the call may be
+        rejected; if it is answered, the answer is the mathematical one (never a truncated or zero result)"""
+        div = []
+        op = case["op"]
+        if case["pol"] != "MUST" or case["kind"] != "poly" or (isinstance(case.get("a"), dict) and case["a"].get("alias")):
+            return div
+        if any(q[1] != 1 for vals in case["X"] for q in vals):
+            return div
+        sg = self.sg
+        T = [sg.Tensor(qarr(vals, shape, np.float64).astype(np.int64)) for shape, vals in zip(case["shapes"], case["X"])]
+        ac = argclass(case)
+        try:
+            with repo.quiet(), np.errstate(all="ignore"):
+                out = self.caller(sg, op, case["a"], T, 0)
+        except Exception:  # noqa: BLE001 - rejecting integer operands is allowed
+            return div
+        want = self.expected_out(case, np.dtype(np.float64))
+        if not isinstance(out, sg.Tensor) or tuple(out.shape) != tuple(case["oshape"]):
+            div.append(("forward_shape", "%s:shape-int64:%s" % (op, ac), "%s%s on int64 %s: shape %s, specification %s" % (op, case["a"], case["shapes"], getattr(out, "shape", None), tuple(case["oshape"]))))
+        elif not np.allclose(out.data.astype(np.float64), want, rtol=1e-6, atol=1e-6):
+            div.append(("forward_value", "%s:value-int64:%s" % (op, ac), "%s%s on int64 operands %s was accepted and answered %s; the mathematical result is %s" % (
+                op, case["a"], case["shapes"], out.data.tolist(), want.tolist())))
+        return div
+
     def int_pass(self, case):
         """C05 on integer-typed tensors: operations under which the integers are closed are run on int64 copies of the
         operands (when every operand value and every specified result value is an integer); shape and values must
         be the same ones, exactly.  The result dtype is not constrained (no listed property fixes it)."""
         div = []
         op = case["op"]
+        if op in self.INT_MAY:
+            return self.int_may_pass(case)
         if op not in self.INT_CLOSED or case["pol"] != "MUST" or case["kind"] not in ("poly", "ext") or case.get("intops"):
             return div
         if isinstance(case.get("a"), dict) and case["a"].get("alias"):
